@@ -32,7 +32,8 @@ def mol_facts(mol, conf_id=None, coords=None):
         else:
             q = conf.GetAtomPosition(i)
             p = (q.x, q.y, q.z)
-        atoms.append({'idx': i, 'num': a.GetAtomicNum(), 'deg': a.GetDegree(), 'tdeg': a.GetTotalDegree(),
+        # 'deg' = number of heavy-atom neighbours: what the floating-atom filter tests
+        atoms.append({'idx': i, 'num': a.GetAtomicNum(), 'deg': sum(1 for nb in a.GetNeighbors() if nb.GetAtomicNum() > 1), 'tdeg': a.GetTotalDegree(),
                       'tval': a.GetTotalValence(), 'nh': a.GetTotalNumHs(includeNeighbors=True), 'mass': int(a.GetMass()),
                       'charge': a.GetFormalCharge(), 'ring': int(a.IsInRing()),
                       'dmass': int(a.GetMass() - pt.GetAtomicWeight(a.GetAtomicNum())),
